@@ -461,6 +461,14 @@ def split_out(text):
 HANG = {"seen": 0}      # timeouts met in this run: after the first, every stream gets a short leash (a hang is one finding, not 200)
 
 
+OUTPUT_LIMIT = 1 << 29      # bytes a single stream of cases may write
+
+
+def _limit_output():
+    import resource
+    resource.setrlimit(resource.RLIMIT_FSIZE, (OUTPUT_LIMIT, OUTPUT_LIMIT))
+
+
 def first_limit():
     """time limit of a stream before any timeout was seen: VERIF_TIMEOUT, else 300 s (quick tier) / 1200 s (thorough: the
     4 GiB single-call cases run there)"""
@@ -489,18 +497,29 @@ def run_stream(exe_cmd, cases, tmp, tag, env=None, timeout=None):
         inp = os.path.join(tmp, "%s-%d.in" % (tag, rounds))
         write_cases(inp, cases[start:], base=start)
         tmo = timeout or HANG.get("limit") or (first_limit() if HANG["seen"] == 0 else 60)
-        with open(inp) as fin:
+        # stdout/stderr go to files with a size limit (RLIMIT_FSIZE): code that loops while printing must not be able to
+        # exhaust the machine's memory through our pipes
+        outp, errp = inp + ".out", inp + ".err"
+        with open(inp) as fin, open(outp, "wb") as fo, open(errp, "wb") as fe:
             try:
-                r = subprocess.run(exe_cmd, stdin=fin, stdout=subprocess.PIPE, stderr=subprocess.PIPE,
-                                   text=True, env=e, timeout=tmo, errors="replace")
-                rc, so, se = r.returncode, r.stdout, r.stderr
-            except subprocess.TimeoutExpired as ex:
+                r = subprocess.run(exe_cmd, stdin=fin, stdout=fo, stderr=fe, env=e, timeout=tmo, preexec_fn=_limit_output)
+                rc = r.returncode
+                se_extra = ""
+            except subprocess.TimeoutExpired:
                 rc = -999
-                so = ex.stdout.decode(errors="replace") if isinstance(ex.stdout, bytes) else (ex.stdout or "")
-                se = "TIMEOUT after %d s (the process did not finish: hang or endless loop)" % tmo
+                se_extra = "TIMEOUT after %d s (the process did not finish: hang or endless loop)" % tmo
                 HANG["seen"] += 1
                 mine += 1
-        os.unlink(inp)
+        so = open(outp, errors="replace").read()
+        se = open(errp, errors="replace").read()[-200000:] + se_extra
+        if rc == -25 or os.path.getsize(outp) >= OUTPUT_LIMIT - 4096:      # SIGXFSZ
+            se += "\nOUTPUT-LIMIT: the process wrote more than %d MB (endless loop that keeps printing)" % (OUTPUT_LIMIT >> 20)
+            so = so[:so.rfind("\n") + 1]
+        for f in (inp, outp, errp):
+            try:
+                os.unlink(f)
+            except OSError:
+                pass
         got = split_out(so)
         outputs.update(got)
         if rc == 0:
@@ -530,7 +549,7 @@ def crash_excerpt(se):
     keep = []
     for l in se.split("\n"):
         if ("ERROR:" in l or "SUMMARY:" in l or "runtime error" in l or "Assertion" in l
-                or re.match(r"\s*#[0-9] ", l) or "TIMEOUT" in l):
+                or re.match(r"\s*#[0-9] ", l) or "TIMEOUT" in l or "OUTPUT-LIMIT" in l):
             keep.append(l.strip()[:200])
     if not keep:
         keep = [se[-600:]]
